@@ -41,6 +41,15 @@ func main() {
 		*tier = "quick"
 	}
 	seed, _ := strconv.Atoi(os.Getenv("VERIF_SEED"))
+	if *dump == "sinks" {
+		p, err := core.Load(core.Config{Name: "default", Dir: *dir})
+		if err != nil {
+			fmt.Println(err)
+			os.Exit(2)
+		}
+		props.DebugSinks(&props.Run{P: p, E: core.NewEngine(p), R: core.NewReport("dbg", "quick", 0)})
+		return
+	}
 	if *dump != "" {
 		doDump(*dir, *dump)
 		return
